@@ -85,11 +85,12 @@ def compWalk : Nat → CS → Option ORef → CS × Option ORef × Bool
         compWalk fuel s none
     | _ => (s, opt, false)
 
-/-- completions offered by the predeclared Completer types (harness/types.go) -/
+/-- completions offered by the predeclared Completer types (harness/types.go); the typed word is
+    matched without regard to ASCII letter case -/
 def completerItems (t : Ty) (m : Bytes) : List Bytes :=
   let sc := match t with | .sc s | .slice s | .ptr s => some s | _ => none
   match sc with
-  | some (.custom 2) => [B "red", B "green", B "blue", B "grey"].filter fun n => hasPrefix n m
+  | some (.custom 2) => [B "red", B "green", B "blue", B "grey"].filter fun n => hasPrefix n (m.map lowerByte)
   | _ => []
 
 /-- `completeValue(value, prefix, match)` -/
